@@ -429,11 +429,19 @@ def check_property(prop, tier, seed):
         "known_findings_reported": [{"obligation": f["obligation"], "what": kf["what"][:300]} for kf, f in known_hits],
         "unchecked_on_paper": pcfg.get("unchecked", []),
         "samples": samples,
+        # the proof-mode functions (lemmas over the contracts and the specs: the round-trip theorems, the inductions over
+        # histories ...) that the verifier accepted in the units of this property, with their solver time
+        "lemmas_proved": sorted({f"{ur['unit']}::{k.split('::')[-1]}" for ur in unit_results for k, v in ur["res"]["functions"].items()
+                                 if v.get("mode") == "proof" and v.get("success")}),
         "smt_ms_total": sum(p.get("smt_ms", 0) for p in fn_reports),
         "explanation": pcfg.get("explanation", ""),
         "evaluations": obligations, "distinct_nontrivial": len({s["obligation"] for s in samples}),
         "rule": "one evaluation = one labelled AIR assert / CBMC check generated for a function tagged with the property; samples are contract clauses",
     }
+    # the theorems the claimed level rests on must be among the lemmas the verifier accepted in this run
+    for L in pcfg.get("required_lemmas", []):
+        if not any(x.endswith("::" + L) for x in coverage["lemmas_proved"]):
+            undecided.append(f"the lemma {L}, which the claim of this property names, was not proved in this run")
     if tier == "thorough" and pcfg.get("thorough_replay"):
         reps = []
         for cmd in pcfg["thorough_replay"]:
